@@ -224,8 +224,8 @@ class HmmerFamily(Family):
         rec = self.prepare(options)
         hits = []
         for index, gene in enumerate(rec.get_cds_features()):
-            if len(gene.translation) < 15:
-                continue    # too short for the fixed hit coordinates
+            if len(gene.translation) < 15 or self.spec.get("variant") == "no-hits":
+                continue    # too short for the fixed hit coordinates / a record on which the search found nothing
             for start, end, score, evalue in ((1, 8, 30.0 + index, 1e-5), (9, 15, 5.0, 1e-3), (3, 12, 0.5, 5e-3)):
                 loc = gene.get_sub_location_from_protein_coordinates(start, end)
                 hits.append(hmmer.HmmerHit(location=str(loc), label="PFtest", locus_tag=gene.get_name(), domain="p450", evalue=evalue,
@@ -324,6 +324,9 @@ def objects(tier):
                 for fam in ("nrps", "hmmer", "tta", "pfam2go"):
                     out.append([fam, {"circ": circ, "layout": layout}])
                 out.append(["nrps", {"circ": circ, "layout": layout, "variant": "double"}])
+                if layout == "plain":
+                    # results without a single hit are results too
+                    out.append(["hmmer", {"circ": circ, "layout": layout, "variant": "no-hits"}])
     return out
 
 
